@@ -708,9 +708,10 @@ func (e *escaper) escapeTree(c context, node parse.Node, name string, line int) 
 			err:   errorf(ErrBadHTML, node, line, "cannot call template %q: %s", name, err),
 		}, name
 	}
-	if strings.Contains(name, derivedNameInfix) && e.ns.set[name] != nil {
-		// A template defined by the program with the name of a context-specific copy
-		// would be used in place of that copy.
+	if strings.Contains(name, derivedNameInfix) {
+		// A template defined by the program with the name of a context-specific copy would
+		// be used in place of that copy, and a call of a copy that the escaper has made
+		// would run it in a context it was not analysed for.
 		return context{
 			state: stateError,
 			err:   errorf(ErrNoSuchTemplate, node, line, "template name %q contains %q, which is reserved", name, derivedNameInfix),
